@@ -21,7 +21,7 @@ from curies.discovery import discover  # noqa: E402
 URIS = [
     "h:/a/1", "h:/a/2", "h:/a/b_1", "h:/a/b_2", "h:/a#x", "h:/a#y", "h:/c/d#e_1", "h:/a/", "h:/a/x-y", "h:/a/b_x-y",
     "nodelim", "", "h:/é/1", "h:/a/é", "k:/z_1", "k:/z_2", "k:/z_3", "h:/a/1_", "h:/a/b_1#", "h:/a/b_3",
-    "h:/m::1", "h:/m::2", "h:/p%3A1", "h:/p%3A2",
+    "h:/m::1", "h:/m::2", "h:/p%3A1", "h:/p%3A2", "k:/zA_1",   # 'k:/zA_' sorts before 'k:/z_' as a string, after it as a (stem, delimiter) pair
 ]
 DELIMS = [None, ["/"], ["_", "/"], ["::", "/"], ["%3A"]]   # incl. multi-character delimiters
 CUTOFFS = [None, 0, 1, 2, 3]
@@ -172,7 +172,7 @@ def replay(case):
 def describe(tier):
     return {
         "level": "model_checking",
-        "rule": f"24-string URI alphabet (nested prefixes, '#', '/', '_' tails, non-alphanumeric and empty tails, delimiter-free, empty, non-ASCII); every "
+        "rule": f"25-string URI alphabet (nested prefixes, '#', '/', '_' tails, non-alphanumeric and empty tails, delimiter-free, empty, non-ASCII); every "
         f"set of <=3 URIs x every sequence of length <= {4 if tier == 'thorough' else 3} with exactly that support (all orders and repetitions) x 5 delimiter "
         "lists (two with multi-character delimiters) x cutoff in {None,0,1,2,3} x 2 metaprefixes x without / with one of three pre-existing converters (one whose prefixes look like generated names); lists and one-shot generators; every 4-element set in every order with "
         f"{'the full' if tier == 'thorough' else 'two'} parameter combination(s); result compared with the reference grouping of the SET; "
